@@ -572,6 +572,64 @@ def monOp0 (m : Mon) (op : String) (args : List String) (impl : List String) (tr
         | _, _ => m
       (resync m out, verdict)
     | _, _ => (m, "bad-op")
+  | "srvconn", name :: _ =>
+    -- the proxy as stream client: every packet the real reader took off the connection is judged like a `reply`, one after the
+    -- other (C04/C02/C10), and - C04 on stream transports - a packet that fails authentication resets the connection
+    match srvConfOf m name with
+    | none => (m, "bad-op")
+    | some sc =>
+      let toks := headToks out
+      let step (acc : Mon × String × List String) (t : String) : Mon × String × List String :=
+        let (m, v, rest) := acc
+        let rest' := rest.drop 1
+        if v ≠ "ok" then (m, v, rest') else
+        if !t.startsWith "got:" then (m, v, rest') else
+        match ofHex (t.drop 4).toString, rest'.head? with
+        | some pkt, some r =>
+          (match ((r.drop 4).toString.splitOn ",") with
+           | [ret, g] =>
+             let ret0 := ret = "0"
+             let grown : List Nat := match g.toNat? with | some j => [j] | none => []
+             let slot := (idOf pkt).toNat
+             let fwd := m.fwds.find? fun f => f.srv = name && f.slot = slot
+             let tries := ((m.slots.find? (·.1 = name)).bind fun s => (s.2.find? (·.1 = slot)).map (·.2)).getD 0
+             let resetFollows := ((rest'.drop 1).head?.map (·.startsWith "slept:")).getD false
+             let verdict :=
+               match grown with
+               | [] =>
+                 (match fwd with
+                  | some f =>
+                    if ret0 && tries > 0 && replyAcceptable H sc.secret (authOf f.pkt) sc.reqMA pkt then "bad C04:authentic-reply-reset-the-connection"
+                    else if !ret0 && wellFormedLoose pkt && [2, 3, 5, 11].contains (codeOf pkt).toNat && !respAuthValid H pkt (authOf f.pkt) sc.secret then
+                      "bad C04:packet-failing-authentication-did-not-reset-the-stream-connection"
+                    else if ret0 && !resetFollows then "bad C04:refused-packet-but-the-stream-connection-was-not-re-established"
+                    else "ok"
+                  | none => if ret0 && !resetFollows then "bad C04:refused-packet-but-the-stream-connection-was-not-re-established" else "ok")
+               | [j] =>
+                 (match fwd with
+                  | none => "bad C04:delivered-without-outstanding-request"
+                  | some f =>
+                    if f.sup then "bad C10:late-reply-to-a-superseded-request-delivered"
+                    else if tries = 0 then "bad C04:delivered-for-request-never-transmitted"
+                    else if !replyAcceptable H sc.secret (authOf f.pkt) (sc.reqMA && (sc.type = 0 || sc.type = 2)) pkt then "bad C04:unauthentic-reply-delivered"
+                    else if j ≠ f.client then "bad C02:delivered-to-wrong-client"
+                    else "ok")
+               | _ => "bad C02:delivered-to-several-clients"
+             let m : Mon := match grown, fwd with
+               | [j], some f =>
+                 { m with queue := m.queue ++ [(j, QEnt.del { client := j, id := idOf f.rq, rep := pkt, srv := name, rq := f.rq, fwd := f.pkt })],
+                          fwds := m.fwds.filter fun f' => !(f'.srv = name && f'.slot = slot),
+                          slots := m.slots.map fun (n, sl) => if n = name then (n, sl.filter (·.1 ≠ slot)) else (n, sl) }
+               | _, _ => m
+             (m, verdict, rest')
+           | _ => (m, "bad output-shape", rest'))
+        | _, _ => (m, "bad output-shape", rest')
+      let (m, v, _) := toks.foldl step (m, "ok", toks)
+      -- every re-established connection lets everything outstanding be sent again
+      let m : Mon := if toks.contains "reconnected" then { m with tx := m.tx.filter (·.1 ≠ name), resetPending := name :: m.resetPending.filter (· ≠ name) }
+                     else { m with resetPending := m.resetPending.filter (· ≠ name) }
+      let slept := (toks.filterMap fun t => if t.startsWith "slept:" then (t.drop 6).toString.toNat? else none).foldl (· + ·) 0
+      (resync { m with now := m.now + slept } out, v)
   | "pop", [k] =>
     match k.toNat? with
     | some k =>
@@ -798,7 +856,7 @@ def monOp1 (m : Mon) (op : String) (args : List String) (impl : List String) (tr
     let (m, v') := monOp0 m op args impl trToks
     (m, if v ≠ "ok" then v else v')
 
-def refOps : List String := ["cfg", "client", "rq", "reply", "writer", "tick", "reset", "srvstate", "pop", "rmclient", "udplisten", "udpsend", "idle", "wrstart", "wrrun", "tcpconn", "rmserver"]
+def refOps : List String := ["cfg", "client", "rq", "reply", "writer", "tick", "reset", "srvstate", "pop", "rmclient", "udplisten", "udpsend", "idle", "wrstart", "wrrun", "tcpconn", "rmserver", "srvconn"]
 
 def monOp2 (m : Mon) (op : String) (args : List String) (impl : List String) (trToks : List String := []) : Mon × String :=
   let (m', v) := monOp1 m op args impl trToks
